@@ -221,3 +221,52 @@ high_bits_shape!(c08_t_high_bits_6, 6);
 to_float_shape!(c08_q_to_float_0, 0);
 to_float_shape!(c08_q_to_float_1, 1);
 to_float_shape!(c08_q_to_float_2, 2);
+// powers-of-two neighbourhoods around the primitive widths (2^64 and 2^128: where a "fast path through u64/u128" would saturate or wrap): thorough-tier attempts (solver resource error after 150 s, like the other from_f64 queries)
+from_f64_field_shape!(c08_t_from_f64_field_1151, 1151, 3, shl_fixedb_1);
+from_f64_field_shape!(c08_t_from_f64_field_1087, 1087, 2, shl_fixedb_0);
+from_f64_field_shape!(c08_t_from_f64_field_1150, 1150, 3, shl_fixedb_1);
+/// bit-level model of f64::trunc (IEEE-754 binary64: clear the fraction bits below the binary point; |x| < 1 -> signed zero;
+/// NaN / infinity / already integral values unchanged)
+fn trunc_model(x: f64) -> f64 {
+    let bits = x.to_bits();
+    let field = (bits >> 52) & 0x7ff;
+    if field >= 1075 {
+        x
+    } else if field < 1023 {
+        f64::from_bits(bits & (1u64 << 63))
+    } else {
+        let frac_bits = 1075 - field; // 1..=52 fraction bits below the point
+        f64::from_bits(bits & !((1u64 << frac_bits) - 1))
+    }
+}
+/// class-pinned stand-in for BigUint::from(u64) on a non-zero argument (the real one pushes in a data-dependent loop, which makes the
+/// length symbolic for the solver; From<u64> itself is decided by c08_q_from_u64)
+fn from_u64_nonzero(n: u64) -> BigUint {
+    kani::assert(n != 0, "VERIF harness class mismatch: zero mantissa");
+    vc::mk_from(&[n])
+}
+// thorough-tier attempt: with trunc, From<u64> and `<<=` replaced by models/pinned stand-ins the query still ends in a CBMC abort (memory) after 100 s
+macro_rules! from_f64_trunc_model_shape {
+    ($name:ident, $field:expr, $w:expr, $fixed:ident) => {
+        #[kani::proof]
+        #[kani::unwind(24)]
+        #[kani::stub(<f64 as num_traits::float::FloatCore>::trunc, trunc_model)]
+        #[kani::stub(<crate::biguint::BigUint as core::convert::From<u64>>::from, from_u64_nonzero)]
+        #[kani::stub(alloc::vec::Vec::shrink_to_fit, vc::noop_shrink)]
+        #[kani::stub(<crate::biguint::BigUint as core::ops::ShlAssign<usize>>::shl_assign, crate::biguint::shift::verif_c07_biguint_shift::$fixed)]
+        fn $name() {
+            let frac: u64 = kani::any();
+            let bits: u64 = (($field as u64) << 52) | (frac & ((1u64 << 52) - 1));
+            let n = f64::from_bits(bits);
+            let mant = (bits & ((1u64 << 52) - 1)) | (1u64 << 52);
+            let e: u64 = $field - 1075;
+            let (expect, lost) = vc::ref_shl::<$w>(&[mant], (e / 64) as usize, (e % 64) as u32);
+            kani::assert(!lost, "VERIF window too small");
+            match BigUint::from_f64(n) {
+                Some(u) => kani::assert(vc::is_canonical(&u) && vc::eq_window(vc::digits(&u), &expect), "VERIF BigUint::from_f64 value"),
+                None => kani::assert(false, "VERIF BigUint::from_f64 None for a positive finite float"),
+            }
+        }
+    };
+}
+from_f64_trunc_model_shape!(c08_t_from_f64_tm_1151, 1151, 3, shl_assign_fixed_1);
